@@ -87,3 +87,16 @@ Proof. vm_compute. split; reflexivity. Qed.
 Print Assumptions C03_ledger.
 Print Assumptions C03_all_returned_after_drop.
 Print Assumptions C03_only_obtained_blocks_are_freed.
+
+(* ---------- the source tie: the statements of /repo that give memory back, pinned as text in
+   LeafActual.v (regenerated on every run): the walk over the chunk list frees each footer's
+   (data, layout) and stops at the sentinel, which is recognised by address; Drop walks the whole
+   list; reset walks everything but the current chunk; set_ptr never writes to the sentinel ---------- *)
+From BV Require Import RustSem LeafActual LeafActualOk.
+From Coq Require Import String.
+Theorem C03_source_frames :
+  Forall (fun n => lookup n src_frames = Some true)
+    ["chunk_list_walk"; "drop_frees_whole_list"; "sentinel_test_by_address"; "set_ptr_spares_sentinel";
+     "reset_frees_all_but_current"; "reset_empty_is_noop"; "new_chunk_asks_allocator"]%string.
+Proof. repeat (constructor; [vm_compute; reflexivity|]). constructor. Qed.
+Print Assumptions C03_source_frames.
